@@ -130,12 +130,14 @@ pub fn project_packet(p: &Packet) -> Value {
 // ------------------------------------------------------------------------------------------ construct
 pub fn name_from(v: &Value) -> Name<'static> {
     let labels: Vec<Label<'static>> = v.as_array().unwrap().iter().map(|l| Label::new_unchecked(json_bytes(l))).collect();
-    Name::new_with_labels(&labels).into_owned()
+    // (no into_owned here: constructing test values must not go through the conversions under test)
+    Name::new_with_labels(&labels)
 }
 
 fn cs_from(v: &Value) -> Result<CharacterString<'static>, String> {
-    let b = json_bytes(v);
-    CharacterString::new(&b).map(|c| c.into_owned()).map_err(|e| format!("cstr: {e}"))
+    // borrowed from leaked storage: a value "built from parts" that still borrows, like application data would
+    let b: &'static [u8] = Box::leak(json_bytes(v).into_boxed_slice());
+    CharacterString::new(b).map_err(|e| format!("cstr: {e}"))
 }
 
 fn u8_of(v: &Value) -> u8 {
@@ -258,8 +260,8 @@ pub fn construct_rdata(code: u16, f: &Value) -> Result<RData<'static>, String> {
         }
         257 => RData::CAA(CAA { flag: u8_of(&f[0]), tag: cs_from(&f[1])?, value: json_bytes(&f[2]).into() }),
         c => {
-            let data = json_bytes(&f[0]);
-            RData::NULL(c, NULL::new(&data).map_err(|e| format!("null: {e}"))?.into_owned())
+            let data: &'static [u8] = Box::leak(json_bytes(&f[0]).into_boxed_slice());
+            RData::NULL(c, NULL::new(data).map_err(|e| format!("null: {e}"))?)
         }
     };
     Ok(r)
